@@ -602,6 +602,13 @@ def hoist_problems(tree_before_slots, first_stmts, an0, snap, out, rep):
             continue
         key = slot_of.get(id(o.node))
         orig = tree_before_slots.get(key) if key is not None else None
+        if isinstance(orig, ast.BinOp):
+            # constant folding ran first: the literal that was hoisted is the value of this closed arithmetic expression
+            try:
+                from vf import rlit
+                orig = ast.Constant(value=rlit.eval_closed_arith(ast.unparse(ast.fix_missing_locations(ast.Expression(body=orig)))))
+            except Exception:  # noqa
+                orig = None
         if not isinstance(orig, ast.Constant):
             problems.append('a name was introduced where no literal stood')
             return problems
@@ -666,7 +673,10 @@ def hoist_ok(k: int, A: str, B: str, C: str, rl: bool, rg: bool) -> bool:
     snap = renamecheck.Snapshot(tree)
     slots0, _p0 = _slots(tree)
     first_stmts = [(n, n.body[0]) for n in ast.walk(tree) if isinstance(n, (ast.Module, ast.FunctionDef, ast.AsyncFunctionDef, ast.ClassDef)) and n.body]
-    out = renamecheck.run_pipeline(tree, rl, rg, True)
+    fold = skeletons.HOIST_TEMPLATES[k][0].startswith('folded_')
+    import copy
+    slots0 = dict((key, copy.deepcopy(v) if isinstance(v, ast.BinOp) else v) for key, v in slots0.items()) if fold else slots0
+    out = renamecheck.run_pipeline(tree, rl, rg, True, extra={'constant_folding': True} if fold else None)
     rep = renamecheck.evaluate(an0, snap, out)
     if rep.problems:
         return False
